@@ -12,8 +12,8 @@ type strPlan struct {
 	seedRots    int
 	k2Seeds     int  // seeds per version for the k=2 element-level phase
 	v2Whole     bool // enumerate all 141,441,309 valid v2 strings
-	v3AllSets   bool // all 2^22 seen-sets (else |optional| <= 2 or >= 12)
-	v4AllSets   bool // all 2^21 optional subsets (else size <= 3 or >= 18)
+	v3AllSets   bool // all 2^22 seen-sets (else |optional| <= 3 or >= 11)
+	v4AllSets   bool // all 2^21 optional subsets (else size <= 4 or >= 17)
 	headerDepth int
 	permsAll    bool
 }
@@ -22,7 +22,7 @@ func strPlanFor(tier string) strPlan {
 	if tier == "thorough" {
 		return strPlan{seedRots: 6, k2Seeds: 3, v2Whole: true, v3AllSets: true, v4AllSets: true, headerDepth: 2, permsAll: true}
 	}
-	return strPlan{seedRots: 2, k2Seeds: 1, v2Whole: false, v3AllSets: false, v4AllSets: false, headerDepth: 1, permsAll: true}
+	return strPlan{seedRots: 3, k2Seeds: 1, v2Whole: false, v3AllSets: false, v4AllSets: false, headerDepth: 1, permsAll: true}
 }
 
 // RunStrSpace runs all generators of E1 with the given predicates.
@@ -222,7 +222,7 @@ func enumV3(s *SS, ver *spec.Version, plan strPlan) {
 		var sb strings.Builder
 		for set := ci * chunk; set < (ci+1)*chunk; set++ {
 			opt := bits.OnesCount(uint(set >> 8))
-			if !plan.v3AllSets && opt > 2 && opt < 12 {
+			if !plan.v3AllSets && opt > 3 && opt < 11 {
 				continue
 			}
 			sb.Reset()
@@ -307,7 +307,7 @@ func enumV4(s *SS, plan strPlan) {
 		var sb strings.Builder
 		for set := ci * chunk; set < (ci+1)*chunk; set++ {
 			sz := bits.OnesCount(uint(set))
-			if !plan.v4AllSets && sz > 3 && sz < 18 {
+			if !plan.v4AllSets && sz > 4 && sz < 17 {
 				continue
 			}
 			sb.Reset()
